@@ -175,6 +175,13 @@ struct Pot
       return 1 - t * t / 3;
     return tanh(t) / t;
   }
+  //! conditioning of a single precision evaluation of sech^2(t), t = s*(x-y) rounded to float: relative error 2 t tanh(t) * 6e-8,
+  //! i.e. the magnitude against which a float result has to be judged is |term| * (1 + 2|t|). 1 for the other priors.
+  T cond2(T x, T y) const
+  {
+    using std::fabs;
+    return kind == LOGCOSH ? 1 + 2 * fabs(s * (x - y)) : T(1);
+  }
   //! absolute error model of STIR's single precision evaluation of log(cosh(t)) (LogcoshPrior.h: static float logcosh(float)):
   //! ~ FLT_EPSILON * (1 + 2|t|); returned in the unit of psi. Zero for the other priors.
   T value_float_floor(T x, T y) const
@@ -287,7 +294,7 @@ struct PairRef
               const T a = k * pot.d11(x[std::size_t(r)], x[std::size_t(r2)]) * v[std::size_t(r)];
               const T b = k * pot.d12(x[std::size_t(r)], x[std::size_t(r2)]) * v[std::size_t(r2)];
               sum += a + b;
-              m += fabs(a) + fabs(b);
+              m += (fabs(a) + fabs(b)) * pot.cond2(x[std::size_t(r)], x[std::size_t(r2)]);
             });
             out[std::size_t(r)] = sum * T(beta);
             if (mag)
@@ -296,17 +303,28 @@ struct PairRef
   }
 
   //! row j of the Hessian on the full image (zeros outside the neighbourhood)
-  void hess_row(const std::vector<T>& x, int jz, int jy, int jx, std::vector<T>& row) const
+  void hess_row(const std::vector<T>& x, int jz, int jy, int jx, std::vector<T>& row, std::vector<T>* mag = nullptr) const
   {
+    using std::fabs;
     row.assign(x.size(), T(0));
+    if (mag)
+      mag->assign(x.size(), T(0));
     const int r = g.idx(jz, jy, jx);
-    T diag = 0;
+    T diag = 0, dmag = 0;
     for_neighbours(jz, jy, jx, [&](int r2, double ws, double) {
       const T k = kk(r, r2) * T(ws);
-      diag += k * pot.d11(x[std::size_t(r)], x[std::size_t(r2)]);
-      row[std::size_t(r2)] += k * pot.d12(x[std::size_t(r)], x[std::size_t(r2)]) * T(beta);
+      const T c = pot.cond2(x[std::size_t(r)], x[std::size_t(r2)]);
+      const T a = k * pot.d11(x[std::size_t(r)], x[std::size_t(r2)]);
+      const T b = k * pot.d12(x[std::size_t(r)], x[std::size_t(r2)]) * T(beta);
+      diag += a;
+      dmag += fabs(a) * c;
+      row[std::size_t(r2)] += b;
+      if (mag)
+        (*mag)[std::size_t(r2)] += fabs(b) * c;
     });
     row[std::size_t(r)] += diag * T(beta);
+    if (mag)
+      (*mag)[std::size_t(r)] += dmag * T(beta);
   }
 
   //! parabolic surrogate curvature: beta * sum_dr w_dr omega(x_r - x_{r+dr}) kappa kappa ("sum of weighting coefficients":
